@@ -83,7 +83,8 @@ Spec == Init /\ [][Next]_vars
 \* for a placement record r of the case: the bond to the parent is template-determined
 ParentUsed(r) == r.path \in {"tet-two-point", "tet-rotate"}
                  \/ (r.path = "fit3" /\ \E x \in ToSet(B(r.name)) : x \in ToSet(r.refs))
-Bad(pl) == {<<"ParentAmongRefs", pl[i].name>> : i \in {j \in 1..Len(pl) : pl[j].path \notin {"fail", "error"} /\ ~ParentUsed(pl[j])}}
+\* (a record whose path the harness could not read off the call stack is not judged: it shows up as drift)
+Bad(pl) == {<<"ParentAmongRefs", pl[i].name>> : i \in {j \in 1..Len(pl) : pl[j].path = "fit3" /\ ~ParentUsed(pl[j])}}
            \cup {<<"PeptideNeighbourBonded", pl[i].name>> : i \in {j \in 1..Len(pl) :
                       ("N+1" \in ToSet(pl[j].refs) /\ ~Case.geonplus) \/ ("C-1" \in ToSet(pl[j].refs) /\ ~Case.geocminus)}}
            \cup {<<"EveryHydrogenPlaced", pl[i].name>> : i \in {j \in 1..Len(pl) : pl[j].path = "fail"}}
